@@ -154,3 +154,31 @@ func HarnessC01Filters() {
 	verifObserve("param", pk)
 	ApplyFilter(f, AsValue(ins[ik]), AsValue(p))
 }
+
+// (4) small programs whose identifier slots are filled from {x, y}: names bound by tags may
+// collide with the names they are computed from (e.g. {% cycle x as x %}{% cycle x %}).
+func HarnessC01Names() {
+	nm := func() string { return []string{"x", "y"}[verifChoice(2)] }
+	A, B, N := nm(), nm(), nm()
+	forms := []string{
+		"{% cycle " + A + " " + B + " as " + N + " %}{% cycle " + N + " %}{{ " + N + " }}{% cycle " + N + " %}",
+		"{% cycle " + A + " as " + N + " silent %}{% cycle " + N + " %}{{ " + N + " }}",
+		"{% for i in l %}{% cycle " + A + " " + B + " as " + N + " %}{% cycle " + N + " %}{% endfor %}{{ " + N + " }}",
+		"{% with " + N + "=" + A + " %}{% with " + A + "=" + N + " %}{{ " + N + " }}{{ " + A + " }}{% endwith %}{% endwith %}",
+		"{% set " + N + " = " + A + " %}{% set " + A + " = " + N + " %}{{ " + N + " }}{{ " + A + " }}",
+		"{% for " + N + " in " + A + " %}{% for " + A + " in " + N + " %}{{ " + A + " }}{% endfor %}{% endfor %}",
+		"{% macro " + N + "(" + A + ") %}{{ " + A + " }}{% endmacro %}{{ " + N + "(" + B + ") }}{{ " + N + "(" + N + ") }}",
+		"{% firstof " + A + " " + N + " %}{% ifchanged " + N + " %}{{ " + A + " }}{% endifchanged %}",
+		"{% cycle " + A + " as " + N + " %}{% with " + A + "=" + N + " %}{% cycle " + N + " %}{{ " + A + " }}{% endwith %}",
+	}
+	src := forms[verifChoice(len(forms))]
+	verifObserve("src", src)
+	set := NewSet("verif", &memLoader{})
+	tpl, err := set.FromString(src)
+	if err != nil {
+		return
+	}
+	tpl.Execute(nil)
+	tpl.Execute(Context{"x": "v", "y": []int{1, 2}, "l": []int{1, 2}})
+	tpl.Execute(Context{"x": c08Stringer(1), "y": map[string]int{"k": 1}, "l": "ab"})
+}
